@@ -368,6 +368,7 @@ class Check:
                 okc, t = leanchecker(m)
                 if not okc:
                     problems.append(f"leanchecker {m}: {t}")
+        self.proof_problems = getattr(self, "proof_problems", []) + problems
         axs = sorted({a for v in thms.values() for a in v})
         self.trusted += [f"Lean 4 kernel ({subprocess.run(['lean','--version'],stdout=subprocess.PIPE,text=True).stdout.strip()[:40]})",
                          "axioms used by the property theorems: " + (", ".join(axs) if axs else "none")]
@@ -380,6 +381,13 @@ class Check:
             return 0
 
     def finish(self, level="proof", checker_cmd=""):
+        # A theorem / audit that no longer checks is a violation unless this run exhibited a NEW concrete failing
+        # input (known findings do not count: they are observed on the unchanged tree as well).
+        pp = getattr(self, "proof_problems", [])
+        if pp and not any(not nofail for _, _, nofail in self.violations) and \
+                not any(w.startswith("proof obligation") for _, w, _ in self.violations):
+            self.violation("proof obligation no longer checks: " + pp[0][:1500],
+                           ["theorem-or-audit-failure"] + [x[:4000] for x in pp], nofail=True)
         wall = time.time() - self.t0
         for kid, what in sorted(self.known_hits.items()):
             print(f"KNOWN-FINDING: property={self.pid} {kid} {what}")
